@@ -17,7 +17,8 @@ struct FitData {
 template<class G>
 FitData<G>* make_fitdata(In& in, int index) {
   auto* d = new FitData<G>;
-  const int n = 4 + index;
+  // 2 points (the smallest legal data set), a handful, and a long record
+  const int n = index == 0 ? 2 : index == 2 ? 24 : 4 + index;
   double t = 0;
   G g = make_elem<G>(in, 0);
   for (int i = 0; i < n; ++i) {
